@@ -142,6 +142,30 @@ func (s *XXH32Stream) WriteFast(b []byte) {
 
 func (s *XXH32Stream) Total() uint64 { return s.total }
 
+// ZeroLanesStripe returns the 16 bytes which, written after prefix (len(prefix)%16 == 0, seed 0), leave all four
+// accumulators at zero: lane' = rotl(lane + x*prime2, 13) * prime1 is 0 exactly when x = -lane * prime2^-1 (mod 2^32).
+// (An implementation that recognises its zero value by "all accumulators are 0" loses everything hashed so far.)
+func ZeroLanesStripe(prefix []byte) [16]byte {
+	var s XXH32Stream
+	s.Write(prefix[:len(prefix)&^15])
+	if !s.started {
+		s.init()
+	}
+	inv := uint32(1)
+	for i := 0; i < 6; i++ { // Newton iteration: doubles the number of correct low bits each round
+		inv *= 2 - p32_2*inv
+	}
+	var out [16]byte
+	for i, lane := range []uint32{s.v1, s.v2, s.v3, s.v4} {
+		x := (0 - lane) * inv
+		out[4*i], out[4*i+1], out[4*i+2], out[4*i+3] = byte(x), byte(x>>8), byte(x>>16), byte(x>>24)
+	}
+	return out
+}
+
+// Lanes exposes the accumulators (harness self-test of ZeroLanesStripe).
+func (s *XXH32Stream) Lanes() [4]uint32 { return [4]uint32{s.v1, s.v2, s.v3, s.v4} }
+
 func (s *XXH32Stream) Sum32() uint32 {
 	if !s.started {
 		s.init()
